@@ -287,6 +287,17 @@ def pools_engine(prop, tier, replay, t0):
                 log('  concurrent calls on a shared schema crashed the process: ' + str(ex)[-300:])
                 return 1
             raise
+        # gated schedules: two calls overlapping at every pool-operation boundary (at most two preemptions), forced through the hooks
+        gtrace = os.path.join(d, 'gated.ndjson')
+        gst = vlib.harness(['pools', '-gated', '0' if thorough else '70', '-seed', str(vlib.seed()), '-out', gtrace])
+        with open(trace, 'a') as f:
+            f.write(open(gtrace).read())
+        st['events'] += gst['events']
+        st['maxid'] = max(st.get('maxid', 0), gst.get('maxid', 0))
+        st['stats']['gated_schedules'] = gst['stats'].get('episodes', 0)
+        st['stats']['probes'] = st['stats'].get('probes', 0) + gst['stats'].get('probes', 0)
+        st['distinct'] += gst['distinct']
+        st['samples'] = st['samples'][:2] + gst['samples'][:2]
         # the Go memory model is outside TLA+: the same episodes, free-running, under the race detector
         rb = build_race_harness()
         rr = vlib.subprocess.run([rb, 'pools', '-concurrent', '8', '-episodes', '600' if thorough else '80', '-calls', '4', '-seed', str(vlib.seed()),
@@ -337,7 +348,7 @@ def pools_engine(prop, tier, replay, t0):
                    trace_events=st['events'], probes=st['stats'].get('probes', 0), evaluations=st['stats'].get('probes', 0), distinct_nontrivial=st['distinct'],
                    rule='C07: every call history of length <= %s over the model alphabet (emitted by TLC) plus seeded random histories over 14 call kinds, each followed by a probe of every call kind whose full '
                         'projected result (issue fields, destination, ctx.Get snapshot) must equal the same call on cleared pools; C08: goroutines running random calls on shared package-level schemas, '
-                        'every result compared with the sequential result; all Get/Put events validated by TLC against the ownership discipline. distinct = distinct histories / plans' % ('3' if thorough else '2'),
+                        'every result compared with the sequential result; gated schedules: for pairs of call kinds, goroutine A is stopped at its k-th pool operation (hook as scheduler gate), B runs to its m-th, A finishes, B finishes, for every k and several m; all Get/Put events validated by TLC against the ownership discipline. distinct = distinct histories / plans / schedules' % ('3' if thorough else '2'),
                    samples=st['samples'], mc_config=mc_desc, tlc_trace_states=res['distinct'], race_detector=race, exhaustive=(prop == 'C07'))
         vlib.write_evidence(prop, tier, 'model_checking', cov,
                             ['sync.Pool is modelled as a bag from which Get may take any element or a fresh object; per-P caches are not modelled',
